@@ -70,7 +70,12 @@ def dispatch(ctx, rule, funcs):
         bs = src(body)
         orth = [n for n in ast.walk(body) if isinstance(n, ast.Assign) and dotted(n.targets[0]) == "orthogonal"]
         ok = bool(orth) and "np.allclose(" in src(orth[0].value) and src(orth[0].value).rstrip(")").endswith(", 90") and "angles" in src(orth[0].value)
-        ctx.decide(ok, rule, orth[0] if orth else per, rel, q, "orthogonal = allclose(cell angles, 90)", "", "orthogonal flag is %s" % (src(orth[0].value) if orth else "missing"))
+        # the flag selects one kernel for the whole trajectory: it must look at the angles of every frame
+        if ok:
+            a0 = orth[0].value.args[0] if isinstance(orth[0].value, ast.Call) and orth[0].value.args else None
+            ok = a0 is not None and not any(isinstance(x, ast.Subscript) for x in ast.walk(a0))
+        ctx.decide(ok, rule, orth[0] if orth else per, rel, q, "orthogonal = allclose(cell angles of all frames, 90)", "",
+                   "orthogonal flag is %s: it must be allclose(<angles of every frame>, 90) - a trajectory whose later frames are triclinic would be sent through the orthorhombic kernel" % (src(orth[0].value) if orth else "missing"))
         # box orientation to both paths
         calls = [n for n in ast.walk(body) if isinstance(n, ast.Call) and ((call_name(n) or "").startswith("_geometry.") or (call_name(n) or "").startswith(("_distance_mic", "_displacement_mic", "_angle", "_dihedral")))]
         boxargs = []
